@@ -14,16 +14,24 @@ enum P {
 
 fn parts(tier: Tier) -> Vec<(String, P)> {
     let mut v = vec![];
-    let dq = if tier == Tier::Quick { 2 } else { 3 };
+    let dq = if tier == Tier::Quick { 2 } else { 4 };
     v.push((format!("raw-queue:dev={}", dq), P::Queue(dq)));
     for k in ALL_KINDS {
-        let d = if tier == Tier::Quick { 2 } else { 3 };
+        // Thorough: 4 deviations everywhere, 5 for the drivers with short scripts.
+        let d = if tier == Tier::Quick {
+            2
+        } else if matches!(k, Kind::Gpu | Kind::Sound | Kind::Socket) {
+            4
+        } else {
+            5
+        };
         v.push((format!("driver:{}:model:dev={}", k.name(), d), P::Driver(k, TKind::Model, d)));
     }
     if tier == Tier::Thorough {
         for k in ALL_KINDS {
-            v.push((format!("driver:{}:pci:dev=2", k.name()), P::Driver(k, TKind::Pci, 2)));
-            v.push((format!("driver:{}:mmio-legacy:dev=2", k.name()), P::Driver(k, TKind::MmioLegacy, 2)));
+            v.push((format!("driver:{}:pci:dev=3", k.name()), P::Driver(k, TKind::Pci, 3)));
+            v.push((format!("driver:{}:mmio-legacy:dev=3", k.name()), P::Driver(k, TKind::MmioLegacy, 3)));
+            v.push((format!("driver:{}:mmio-modern:dev=2", k.name()), P::Driver(k, TKind::MmioModern, 2)));
         }
     } else {
         v.push(("driver:blk:pci:dev=1".into(), P::Driver(Kind::Blk, TKind::Pci, 1)));
